@@ -123,13 +123,27 @@ def dta(ctx, R):
         else:
             R.ok(key, fi.where(), "%s" % cname)
     # --- _infer_dtype over (max, min)
-    fi = prog.func("writer._infer_dtype")
+    try:
+        fi = prog.func("writer._infer_dtype")
+    except AnchorMissing:
+        # renamed / moved: the one function that takes max(...) and min(...) of its argument and tests isinstance(..., int)
+        cands = [f for f in prog.functions.values() if f.module.name in ("writer", "types") and f.params and
+                 {"max", "min"} <= {call_name(c) for c in walk_body(f.node) if isinstance(c, ast.Call)} and
+                 any(isinstance(c, ast.Call) and call_name(c) == "isinstance" for c in walk_body(f.node))]
+        if len(cands) != 1:
+            R.unrecognised("writer._infer_dtype::decision table", wmod.relpath, "the function that picks an integer dtype from the extremes of a list was not recognised")
+            return
+        fi = cands[0]
     body = None
     for s in fi.node.body:
         if isinstance(s, ast.If) and "isinstance" in unparse(s.test):
             body = s.body
     if body is None:
         raise AnchorMissing("writer._infer_dtype: integer branch")
+    if any(not isinstance(s, (ast.Assign, ast.If, ast.Return, ast.Expr)) for s in body):
+        R.unrecognised("writer._infer_dtype::decision table", fi.where(), "the integer branch is not a chain of comparisons written out in the function "
+                       "(it contains `%s ...`): the dtype thresholds are not decided" % unparse([s for s in body if not isinstance(s, (ast.Assign, ast.If, ast.Return, ast.Expr))][0]).splitlines()[0][:60])
+        return
     consts = _constants_in(prog, wmod, fi.node)
     pts = {-2**63, 2**64 - 1, 0, -1, 1}
     for c in consts:
